@@ -22,8 +22,9 @@ def fill(check, pending):
           "Every construct runs in a forked process over a real tmpfs module directory. For the final construct of each seeded "
           "history the engine enumerates ALL crash points of the module-writing path (each seam call k x before/after/mid-write, "
           "death = os._exit inside the call), checks the module path after each death (no file | complete previous | complete new) "
-          "and at every seam point as an outside observer, then requires a fresh process to load and render per the staleness "
-          "rules; plus failing/short/degraded system calls with the process surviving, and 2-8 processes in seeded lock step. "
+          "and at every seam point - including every executed line of the module-writing functions - as an outside observer, "
+          "then requires a fresh process to load and render per the staleness rules; plus failing/short/degraded system calls "
+          "with the process surviving, one process constructing twice around a source change, and 2-8 processes in seeded lock step. "
           "Staleness rules (missing / older / magic / reuse unchanged / module_writer contract) are checked on every construct.",
           "Crash granularity = the file-system calls Mako itself makes (importlib's bytecode writes are not crash points); histories "
           "are sampled, crash points per sampled history are exhaustive; power loss (unsynced data) out of scope.",
@@ -32,7 +33,8 @@ def fill(check, pending):
           "2-3 real threads (plus a file-editing writer actor) on one TemplateLookup, parked and released one at a time by a "
           "seeded scheduler at every lock operation, I/O seam call, Template construction boundary and traced line (opcodes in "
           "hot functions); strategies: random walk biased to shared-state code, PCT, pre-emption bounded (<= 3), round robin, "
-          "stalled thread, and a systematic sweep that pre-empts one thread at EVERY one of its shared-state points in turn. "
+          "stalled thread, phased load/edit/ask-again histories, and a systematic sweep that pre-empts one thread at EVERY one of "
+          "its shared-state points in turn; threads also construct module-directory Templates directly and call adjust_uri. "
           "The recorded history (invoke/return stamped with the scheduler's global step) is checked for: documented exceptions "
           "only, completely constructed results, freshness relative to the call's start, compile-once/same-object for "
           "simultaneous first requests, per-thread render output, LRU bound at every scheduling point, no deadlock / leaked lock.",
@@ -43,9 +45,10 @@ def fill(check, pending):
           "Generated template programs (defs plain/buffered/filtered/cached/decorated/nested/with arguments, calls by name / "
           "self. / capture(), <%call> with content, loops with loop.index witnesses, blocks, <%text filter>, includes, "
           "inheritance, % try at arbitrary ancestors). A dry render lists every dynamic call out of generated code; EVERY one "
-          "(cap 80/program) is made to raise in turn, under 7 handler placements (none, error_handler True/False, "
-          "format_exceptions, caller of render_context, include_error_handler True/None), plus failing writes of the caller's "
-          "sink; output after the handler, Context stacks, a following write and render on the same Context, a second render of "
+          "(cap 80/program) is made to raise in turn, under 14 handler placements (none, error_handler accepting/declining, "
+          "format_exceptions, caller of render_context, include_error_handler accepting/declining/only on the included/only on "
+          "the main template, and SystemExit-like BaseException raises), plus prologue name-lookup failures and failing writes "
+          "of the caller's sink; output after the handler, Context stacks, a following write and render on the same Context, a second render of "
           "the same Template and exception identity are compared with a reference interpreter that also must match the "
           "fault-free render of every program.",
           "Programs are sampled (seeded), raise points per program are enumerated; asynchronous exceptions between bytecodes "
